@@ -376,10 +376,29 @@ class Hugr(Mapping[Node, NodeData], Generic[OpVarCov]):
             sub_offset = next(
                 i for i, inp in enumerate(self.linked_ports(src)) if inp == dst
             )
-            self._links.delete_left(_SubPort(src, sub_offset))
         except StopIteration:
             return
-        # TODO make sure sub-offset is handled correctly
+        src_sub = _SubPort(src, sub_offset)
+        dst_sub = self._links.fwd[src_sub]
+        self._links.delete_left(src_sub)
+        # keep the sub-offsets of both ports contiguous, so that the remaining
+        # links of the ports stay visible
+        self._close_sub_offset_gap(src_sub)
+        self._close_sub_offset_gap(dst_sub)
+
+    def _close_sub_offset_gap(self, sub_port: _SubPort) -> None:
+        """Shift the links at higher sub-offsets of a port down by one, after
+        the link at `sub_port` was removed.
+        """
+        nxt = sub_port.next_sub_offset()
+        if isinstance(sub_port.port, OutPort):
+            while nxt in self._links.fwd:
+                self._links.insert_left(sub_port, self._links.fwd[nxt])
+                sub_port, nxt = nxt, nxt.next_sub_offset()
+        else:
+            while nxt in self._links.bck:
+                self._links.insert_right(sub_port, self._links.bck[nxt])
+                sub_port, nxt = nxt, nxt.next_sub_offset()
 
     def root_op(self) -> OpVarCov:
         """The operation of the root node.
